@@ -2,6 +2,7 @@
 from collections import Counter
 
 from harness.lib.framework import Prop, coq_bool, coq_list, coq_N, coq_nat, coq_str
+from harness.lib.looputil import permute_ready
 
 TAGS = ["0", "0.0", "0.1", "1", "0.10", "0.1.2"]
 
@@ -131,10 +132,7 @@ class C03(Prop):
 
             def _run_once(self):
                 if self._vrng is not None and len(self._ready) > 1:
-                    l = list(self._ready)
-                    self._vrng.shuffle(l)
-                    self._ready.clear()
-                    self._ready.extend(l)
+                    permute_ready(self._ready, self._vrng.shuffle)   # thread-safe, same order (harness/lib/looputil.py)
                 super()._run_once()
 
         self.asyncio, self.random, self.SchedLoop = asyncio, random, SchedLoop
